@@ -23,6 +23,7 @@ ASSUMPTIONS = ["as C01; equality of environments is the property's own (duplicat
                "unset = empty); the round-trip clause is evaluated when no product of the request's closure is set up "
                "beforehand"]
 PID = "C02"
+MIRRORS = L.mirrors(PID)
 
 
 def gen_roundtrip(rng):
@@ -37,6 +38,10 @@ def gen_roundtrip(rng):
         hist.append(r)
     r = L.gen_request(rng, g, op="setup", plain=True)
     r["inexact"] = inexact
+    if rng.random() < 0.2:
+        r["types"] = ["build"]          # setup --type build p; unsetup --type build p
+        for h in hist:
+            h["types"] = ["build"]
     u = dict(r, op="unsetup", ver=None)
     if g.get("nstacks", 1) > 1 and rng.random() < 0.6:
         # the unsetup command runs with another EUPS_PATH than the setup (setup -Z other p; unsetup p): the record's
@@ -93,6 +98,10 @@ def run(ctx):
         ctx.hist("stat_" + k, v)
     if done >= 200 and (stats.get("roundtrips", 0) < done * 0.3):
         raise common.InfraError("degenerate distribution: %r of %d round trips" % (stats, done))
+    if done >= 300 and stats.get("class_mid_reference", 0) < 10:
+        raise common.InfraError("too few set-ups of tables with ${<NAME>_DIR} in the middle of a value: %r" % (stats,))
+    if done >= 200 and stats.get("sh_compared", 0) < stats.get("ok", 0) * 0.5:
+        raise common.InfraError("command lists compared string by string on too few requests: %r" % (stats,))
     bad = ctx.histogram.get("outcome=notfound", 0) + ctx.histogram.get("outcome=raised", 0)
     if done >= 200 and bad < 30:
         raise common.InfraError("degenerate distribution: only %d failing requests" % bad)
